@@ -1,6 +1,7 @@
 /-
 Helper lemmas for C02 (1): the scan `findTurns` computes the declarative `Spec.reversals`.
 -/
+import Proofs.Lemmas.Common
 import Model.Rainflow.Spec
 
 namespace PylifeVerif.C02
